@@ -383,7 +383,7 @@ def run(ck):
     order = list(combos)
     rs.shuffle(order)
     size = 12
-    for rep in range(6 if quick else 12):
+    for rep in range(6 if quick else 60):
         for i in range(0, len(order), size):
             wid += 1
             workloads.append({"id": wid, "combos": order[i:i + size], "k": [0, 3, 3, 0][rep % 4], "exit": rs.choice(["return", "exception"]),
